@@ -92,6 +92,10 @@ type mURR struct {
 	live    bool
 	method  uint8
 	mnop    bool
+	// periodic reporting as requested at creation; perAmb: no longer certain (Update URR, refused removal)
+	perio  bool
+	period uint32
+	perAmb bool
 }
 
 type mSess struct {
@@ -128,8 +132,9 @@ type Analyzer struct {
 	// refused: rules whose removal the data plane refused (injected): they stay installed through no fault of the UPF
 	refused map[RuleKey]bool
 	// outst: report steps whose Session Report Request is still outstanding at the UPF (not answered, not given up)
-	outst       map[int]*mSess
-	LateAnswers int
+	outst                  map[int]*mSess
+	LateAnswers            int
+	Ticks, PeriodicReports int
 }
 
 func (a *Analyzer) add(prop, sig, desc string, step int) {
@@ -235,6 +240,18 @@ func Analyze(tr *Trace) *Analyzer {
 			if op.NodeID >= 0 && n != nil && n.assoc && !op.NoFSEID {
 				expectRsp = true
 				expectAccepted = true
+			}
+		case "tick":
+			// the sessions a tick of this period may read out
+			for _, s := range a.sess {
+				if !s.alive {
+					continue
+				}
+				for _, m := range s.urr {
+					if m.live && (m.perAmb || m.tainted || (m.perio && m.period == op.Period)) {
+						targets[s.up] = true
+					}
+				}
 			}
 		case "mod", "del", "urep", "dldr":
 			if s, ok := a.byUP[st.UP]; ok && st.UP != 0 {
@@ -589,7 +606,7 @@ func Analyze(tr *Trace) *Analyzer {
 				a.Teardowns++
 			}
 		case "est", "mod":
-			if target != nil && op.K == "mod" && op.Takeover > 0 && accepted {
+			if target != nil && op.K == "mod" && op.Takeover > 0 && accepted && op.Takeover-1 != target.node {
 				// the session's control moves to the new node id (the old node owned nothing else)
 				nw := op.Takeover - 1
 				old := a.nodes[target.node]
@@ -664,6 +681,8 @@ func Analyze(tr *Trace) *Analyzer {
 					}
 				}
 			}
+		case "tick":
+			a.tick(st)
 		case "lateans":
 			if target != nil && ending[target.up] {
 				target.alive = false
@@ -838,6 +857,93 @@ func (a *Analyzer) c11reports(st *Step, s *mSess) {
 	}
 }
 
+// tick: a tick of one measurement period in the real periodic server. Every report must belong to a URR of the
+// session it is delivered under that asked for periodic reports with this period, and (fault-free runs) every such
+// URR is read out exactly once; UR-SEQN continues per URR.
+func (a *Analyzer) tick(st *Step) {
+	op := st.Op
+	a.Ticks++
+	// a Session Report Request goes to <node id>:8805 of the node that controls the session now (as in c11reports)
+	recvIdx := func(s *mSess) int { return s.node }
+	got := map[*mSess]map[uint32]int{}
+	first := map[uint32]bool{}
+	for k, d := range st.Reports {
+		if d.M == nil || first[d.M.Seq] {
+			continue
+		}
+		first[d.M.Seq] = true
+		var cands []*mSess
+		for _, s := range a.sess {
+			if s.alive && s.cp == d.M.SEID && recvIdx(s) == st.RepAt[k] {
+				cands = append(cands, s)
+			}
+		}
+		ies := usageIEs(d.M)
+		if len(cands) != 1 {
+			// not attributable (no or several sessions of that peer with this CP-SEID): their counters are not followed further
+			for _, s := range cands {
+				for _, ie := range ies {
+					if m := s.urr[ParseURep(ie).URRID]; m != nil {
+						m.tainted = true
+					}
+				}
+			}
+			if len(cands) == 0 && a.NoFaults {
+				a.add("C10", "periodic-report-to-nobody", fmt.Sprintf("periodic Session Report Request with SEID %#x at SMF %d matches no live session", d.M.SEID, st.RepAt[k]), st.I)
+			}
+			continue
+		}
+		s := cands[0]
+		if got[s] == nil {
+			got[s] = map[uint32]int{}
+		}
+		for _, ie := range ies {
+			u := ParseURep(ie)
+			m := s.urr[u.URRID]
+			got[s][u.URRID]++
+			a.PeriodicReports++
+			if a.NoFaults {
+				switch {
+				case m == nil || !m.live:
+					a.add("C05", "periodic-report-for-a-urr-the-session-does-not-have", fmt.Sprintf("tick of %d s: session %#x (CP-SEID %#x) got a periodic report for URR %d, which it does not have", op.Period, s.up, s.cp, u.URRID), st.I)
+				case !m.perAmb && !m.tainted && !(m.perio && m.period == op.Period):
+					a.add("C05", "periodic-report-for-a-urr-not-registered-with-this-period", fmt.Sprintf("tick of %d s: session %#x got a periodic report for URR %d, which did not ask for periodic reports with this period (a registration left behind by another session?)", op.Period, s.up, u.URRID), st.I)
+				}
+			}
+			a.seqn(st, s, u)
+		}
+	}
+	if !a.NoFaults {
+		return
+	}
+	nreg := 0
+	for _, s := range a.sess {
+		if !s.alive {
+			continue
+		}
+		for _, m := range s.urr {
+			if m.live && m.perio && m.period == op.Period && !m.perAmb && !m.tainted {
+				nreg++
+				break
+			}
+		}
+	}
+	for _, s := range a.sess {
+		if !s.alive || len(a.twins(s)) > 1 {
+			continue
+		}
+		for id, m := range s.urr {
+			if m.live && m.perio && m.period == op.Period && !m.perAmb && !m.tainted && got[s][id] != 1 {
+				prop := "C10"
+				if nreg >= 2 {
+					prop = "C05" // with another session sharing the period: has its read-out been mixed up with that one's?
+				}
+				a.add(prop, "periodic-readout-count", fmt.Sprintf("tick of %d s: URR %d of session %#x asked for periodic reports with this period and got %d (%d sessions share the period)", op.Period, id, s.up, got[s][id], nreg), st.I)
+			}
+		}
+	}
+}
+
 func (a *Analyzer) seqn(st *Step, s *mSess, u URep) {
 	a.URepIEs++
 	m := s.urr[u.URRID]
@@ -880,7 +986,7 @@ func (a *Analyzer) c11c12(st *Step, s *mSess, deletion bool) {
 		if m := s.urr[id]; m != nil {
 			inc = m.inc + 1
 		}
-		s.urr[id] = &mURR{inc: inc, live: true, method: r.Method, mnop: r.MNOP}
+		s.urr[id] = &mURR{inc: inc, live: true, method: r.Method, mnop: r.MNOP, perio: r.Trig&1 != 0 && r.Period > 0, period: r.Period}
 		s.dpURR[id] = true
 	}
 	refs := func() map[uint32]int {
@@ -971,6 +1077,20 @@ func (a *Analyzer) c11c12(st *Step, s *mSess, deletion bool) {
 					}
 					delete(s.pdrURR, r.ID)
 					delete(s.pdrAmb, r.ID)
+				}
+			}
+		}
+		for _, r := range op.Update {
+			if r.Kind == "URR" {
+				if m := s.urr[uint32(r.ID)]; m != nil {
+					m.perAmb = true // what an Update URR does to the periodic registration is C03's subject
+				}
+			}
+		}
+		for _, r := range op.Remove {
+			if r.Kind == "URR" && refusedNow("URR", r.ID) {
+				if m := s.urr[uint32(r.ID)]; m != nil {
+					m.perAmb = true // given up by the control plane, still installed: not read out periodically any more
 				}
 			}
 		}
